@@ -47,6 +47,7 @@ func main() {
 	mutJSON := flag.String("mutant-json", "", "internal: overlay edit set {file, edits:[[old,new],…]} read from a JSON file")
 	mutAll := flag.Bool("mutant-all", false, "internal: replace every occurrence of the anchor (renames)")
 	manifest := flag.Bool("manifest", false, "regenerate MANIFEST.json from the registered properties")
+	hitsOnly := flag.Bool("hits", false, "internal: print open obligations as MUTANT-HIT lines and write no evidence")
 	forceNF := flag.Bool("normal-form", false, "evaluate on the inlined normal form of the sources instead of the sources (self-consistency of the second pass)")
 	freeze := flag.Bool("freeze-params", false, "maintenance: rewrite checker/params_frozen.go from the current tree")
 	flag.Parse()
@@ -241,6 +242,8 @@ func main() {
 			}
 		}
 		sb.WriteString("}\n")
+		sb.WriteString(freezeShapes(w, pats))
+		sb.WriteString(freezeConsts(w))
 		out := filepath.Join(verifDir(), "checker", "params_frozen.go")
 		if err := os.WriteFile(out, []byte(sb.String()), 0o644); err != nil {
 			fmt.Println(err)
@@ -349,7 +352,7 @@ func main() {
 			}
 		}
 	}
-	if *mutant != "" {
+	if *mutant != "" || *hitsOnly {
 		// mutant mode: print violated keys, never touch evidence
 		n := 0
 		known, _ := loadKnownFindings(verifDir())
